@@ -93,6 +93,8 @@ def main():
             size = os.path.getsize(target_path)  # torch.save is not audited (C++ writer): take the size of the completed file directly
         restore(pre)
         specs = [("before_event", j) for j in range(len(events) + 1)]
+        # ... and right after each operation has returned to Python (e.g. between a rename and the close/flush of a file object that is still open)
+        specs += [("after_event", j) for j in range(len(events))]
         if size:
             nprefix = cfg.get("prefixes", 8)
             cand = sorted(set([0, 1, 2, size // 4, size // 2, size - 1] + [2 ** k for k in range(3, 31) if 2 ** k < size]))
@@ -114,6 +116,23 @@ def main():
                             if e in EVENTS and a and in_out(a[0]):
                                 if cnt[0] == val:
                                     os._exit(137)
+                                cnt[0] += 1
+
+                        sys.addaudithook(hook)
+                    elif kind == "after_event":
+                        cnt = [0]
+
+                        def die(frame, event, arg):
+                            os._exit(137)   # first trace event (line / return / call) after the operation has returned: buffered data of open files is lost
+
+                        def hook(e, a):
+                            if e in EVENTS and a and in_out(a[0]):
+                                if cnt[0] == val:
+                                    f = sys._getframe(1)
+                                    while f is not None:
+                                        f.f_trace = die
+                                        f = f.f_back
+                                    sys.settrace(die)
                                 cnt[0] += 1
 
                         sys.addaudithook(hook)
@@ -174,7 +193,7 @@ def main():
             name = f"{tag}_{kind}_{val}"
             shutil.copytree(OUT, os.path.join(SNAP, name))
             meta.append(dict(name=name, tag=tag, kind=kind, val=val, child_exit=os.WEXITSTATUS(st), size=size,
-                             event=(events[val] if kind == "before_event" and val < len(events) else None), n_events=len(events), info=info))
+                             event=(events[val] if kind in ("before_event", "after_event") and val < len(events) else None), n_events=len(events), info=info))
             restore(pre)
         shutil.rmtree(pre)
         return events
